@@ -255,6 +255,53 @@ def freeze_establishes_invariant(report):
     rel.data.update(gxx=np.ones((6, 6, 6)), my_custom=np.ones((6, 6, 6)), Kdown3=np.zeros((3, 3, 6, 6, 6)))
     rel.freeze_data()
     ok &= all(rel.var_importance.get(k, 1.0) == 0 for k in rel.data)
+    # every key that has an importance weight of its own (whatever its value), and keys with a user override, supplied as inputs
+    relw = AurelCore(fd, verbose=False, clear_cache_every_nbr_calc=1)
+    weighted = sorted(relw.var_importance)
+    for k in weighted:
+        relw.data[k] = np.full((6, 6, 6), 3.0)
+    relw.data['my_custom'] = np.full((6, 6, 6), 3.0)
+    relw.var_importance['my_custom'] = 0.37
+    relw.freeze_data()
+    left_w = sorted(k for k in relw.data if relw.var_importance.get(k, 1.0) != 0)
+    if left_w:
+        ok = False
+        for k in ('gammadet', 'Ktrace', 'gammaup3', 'betadown3', 'gdet', 'gup4'):
+            try:
+                relw[k]
+            except Exception:  # noqa  (placeholder shapes: some keys cannot be computed - only the evictions matter)
+                pass
+        gone_w = [k for k in left_w if k not in relw.data or not np.all(np.asarray(relw.data[k]) == 3.0)]
+        if gone_w:
+            report.violation('freeze-invariant:weighted-inputs', f'freeze_data() leaves inputs {left_w[:6]} (keys with their own importance weight) unfrozen; '
+                             f'a few requests later {gone_w[:6]} are evicted or replaced', report.write_replay('freeze-weighted', dict(unfrozen=left_w, evicted=gone_w)))
+        else:
+            report.notes.append(f'freeze_data leaves {left_w[:6]} unfrozen (reported through the generic freeze-invariant violation below)')
+    # __getitem__ keeps the age table in step with the cache for every kind of request, helpers fetched by bracket included
+    import inspect
+    relg = AurelCore(fd, verbose=False, clear_cache_every_nbr_calc=1)
+    relg.data.update(gxx=2.0 * np.ones((6, 6, 6)), kxx=0.5 * np.ones((6, 6, 6)))
+    relg.freeze_data()
+    helpers_ = [n for n, f_ in inspect.getmembers(type(relg), inspect.isfunction)
+                if not n.startswith('_') and len(inspect.signature(f_).parameters) > 1 and n not in ('load_data', 'myprint')]
+    stale, raised = None, None
+    for k in ['gammadet', 'gxx', 'gammadet'] + helpers_ + ['Ktrace', 'gammaup3', 'betadown3']:
+        try:
+            relg[k]
+        except Exception as e:  # noqa
+            raised = (k, repr(e)[:120])
+            break
+        extra = sorted(set(relg.last_accessed) - set(relg.data))
+        if extra and stale is None:
+            stale = (k, extra)
+    if stale or raised:
+        ok = False
+        if raised:
+            report.violation('age-table:getitem', f"after rel[{stale[0] if stale else '?'}] the age table lists {stale[1] if stale else '?'} which is not cached; "
+                             f'the next clean-up raises inside rel[{raised[0]}]: {raised[1]}',
+                             report.write_replay('age-table-getitem', dict(stale=stale, raised=raised)))
+        else:
+            report.harness_errors.append(f'age table lists uncached keys after rel[{stale[0]}]: {stale[1]}, but no later request raised')
     # freeze after some requests were already made (inputs and results are then in the age table): still every key present
     relb = AurelCore(fd, verbose=False, clear_cache_every_nbr_calc=1)
     relb.data.update(gxx=7.0 * np.ones((6, 6, 6)), kxx=0.5 * np.ones((6, 6, 6)), my_custom=np.ones((6, 6, 6)))
